@@ -27,35 +27,35 @@ CLAIMS = {
          "7 C18", "distribution of w-mers over runs is left open by the property and compared only against the model.",
          "Coq proof (simulation + conservation invariant) + differential correspondence"),
 
- "C04": ("proof", "Theorems for every k in 1..=31 and every byte list over 4..255: the model's vector (pos_map / histogram as in the Rust) equals, column by column, the number of valid windows whose canonical form is that column's k-mer; entries sum to the window count; all-zero row without windows; invariance under reverse complement, lower case and U for T. The normalised entry is the binary64 quotient count / max(1,total) (Flocq model, compared bit for bit); 'correct to 6 decimals' of the printed text rests on the validated fmt6 model (partial).",
+ "C04": ("proof", "Theorems for every k in 1..=31 and every byte list over 4..255: the model's vector (pos_map / histogram as in the Rust) equals, column by column, the number of valid windows whose canonical form is that column's k-mer; entries sum to the window count; all-zero row without windows; invariance under reverse complement, lower case and U for T. The normalised entry is the binary64 quotient count / max(1,total) (Flocq model, compared bit for bit); it is proved (Flocq Bdiv_correct) to lie in [0,1] and hence to print as exactly 8 characters; the error bound of the printed 6 decimals relative to the exact quotient rests on the validated fmt6 model (partial).",
          "7 C04", "Rust float formatting {:.6} is modelled (fmt6) and validated bit/text-exact, not verified; Python and CLI paths are covered by C13/C15.",
          "Coq proof (histogram = occurrence counts over the canonical columns, permutation/extensionality arguments) + differential correspondence incl. metamorphic respellings"),
  "C05": ("proof", "Theorems: the batch loop outputs header ++ rows in record order for EVERY memory limit; the mapped writer's schedule model puts row n into slot n for EVERY worker count and EVERY complete interleaving of TAKE/WRITE/EXIT steps; both writers agree; a header adds exactly one line. Tied to the code by the byte-identity matrix (threads x limits x writers x containers x delimiters), by controlled-scheduler replay through the cfg(kmertools_verif) hooks whose logged trace, write offsets and bytes must equal the model's, and by run-twice agreement on the implementation.",
          "7 C05", "atomicity of the reader mutex and of one write_at per row, and order preservation of rayon collect, are assumed; interleavings below hook granularity are runtime behaviour the model cannot exhibit (partial).",
          "Coq proof (invariant over all schedules; induction over the batch loop) + schedule replay and trace validation against the hooked implementation"),
- "C07": ("proof", "Theorems: chunked counting under any schedule of CHECK/TAKE/INC/ADD/EXIT steps, any worker count and any limit counts every k-mer exactly as often as it occurs over all chunk passes; partition + per-partition merge yields exactly one line per distinct k-mer carrying the total, for every n_parts >= 1 and every chunking. Correspondence: kmers.counts (numeric and ACGT) and surviving temp files for ceilings giving 1..dozens of chunks/partitions, threads default/1..16, repetitive inputs.",
+ "C07": ("proof", "Theorems: the rendered counts table of the partition/merge model equals the spec table for every n_parts >= 1 and every chunking; chunked counting under any schedule of CHECK/TAKE/INC/ADD/EXIT steps, any worker count and any limit counts every k-mer exactly as often as it occurs over all chunk passes; partition + per-partition merge yields exactly one line per distinct k-mer carrying the total, for every n_parts >= 1 and every chunking. Controlled-scheduler replay of count() through the hooks with trace validation (CHECK/TAKE/INC/ADD/EXIT, several chunk passes). Correspondence: kmers.counts (numeric and ACGT) and surviving temp files for ceilings giving 1..dozens of chunks/partitions, threads default/1..16, repetitive inputs.",
          "7 C07", "atomicity of scc entry and AtomicU64 assumed; a non-atomic get-then-insert shows only in free-running stress (partial); counts < 2^32.",
          "Coq proof (conservation invariant over all schedules; merge algebra) + differential correspondence on the merged table"),
- "C08": ("proof", "Theorems for every k in 1..=31, bin count >= 1, any table: the row has bin-count entries, entry b counts the valid windows whose canonical k-mer has multiplicity c with min(c / bin-size, bin-count - 1) = b (absent k-mers: bin 0), every window in exactly one bin; the batch loop writes one row per record in order for every limit (after the D5 fix). Correspondence at record level (boundary multiplicities) and file level (alt input, flush per record / never, threads, trailing empty records).",
+ "C08": ("proof", "Theorems for every k in 1..=31, bin count >= 1, any table: the row has bin-count entries, entry b counts the valid windows whose canonical k-mer has multiplicity c with min(c / bin-size, bin-count - 1) = b (absent k-mers: bin 0), every window in exactly one bin; the vectors file of the model is one specified row per record in input order for every flush limit; the batch loop writes one row per record in order for every limit (after the D5 fix). Correspondence at record level (boundary multiplicities) and file level (alt input, flush per record / never, threads, trailing empty records).",
          "7 C08", "(count as f64 / bin_size as f64).floor() modelled as integer division (assumed exact below 2^32, boundary values generated).",
          "Coq proof (histogram lemma, batch loop induction) + differential correspondence"),
- "C10": ("proof", "Theorems: for every worker count and every complete interleaving the emitted items (s2m lines; m2s pushes) are exactly all items as a multiset; the runs of a record are the spec runs of C09 over the effective window (w=0: whole record). Correspondence: both outputs as sets of lines (lists as multisets) against model and spec, and m2s = inversion of s2m on the implementation itself.",
+ "C10": ("proof", "Theorems: for every worker count and every complete interleaving the emitted items (s2m lines; m2s pushes) are exactly all items as a multiset; the runs of a record are the spec runs of C09 over the effective window (w=0: whole record); both output files of the model equal the specified ones; the fused step the real workers take refines the model (replayed through the hooks with trace validation). Correspondence: both outputs as sets of lines (lists as multisets) against model and spec, and m2s = inversion of s2m on the implementation itself.",
          "7 C10", "atomicity of scc entry and of the mutex-protected line write assumed (a lost insert inside a non-atomic contains/insert is below hook granularity: partial).",
          "Coq proof (multiset conservation over all schedules, C09 transfer) + differential correspondence"),
- "C11": ("proof", "Theorems on the generic walk (both the exact dyadic and the Flocq binary64 model): one point per base, rejection exactly when a byte has no corner (and then no coordinates), prefix determinacy, midpoint rule; on the exact model: every point inside [0,S]^2 and the last j bases fix a sub-square of side S/2^j. Corner table regenerated and proved equal to the property's corners for all 256 bytes. Correspondence: coordinates bit for bit with the binary64 model for every length, with the exact spec on the exactly representable prefix; file path with threads/limits/containers.",
-         "7 C11", "Rust f64 +,/ assumed IEEE binary64 RNE (Flocq); `{}` printing validated by parse-back only; equality of the float and exact models beyond the representable prefix is not proved (containment there is partial).",
+ "C11": ("proof", "Theorems on the generic walk (both the exact dyadic and the Flocq binary64 model): one point per base, rejection exactly when a byte has no corner (and then no coordinates), prefix determinacy, midpoint rule; on the exact model: every point inside [0,S]^2 and the last j bases fix a sub-square of side S/2^j. Corner table regenerated and proved equal to the property's corners for all 256 bytes. On the binary64 model (Flocq): every coordinate stays finite and inside the square for every length and every integer size < 2^52, and has EXACTLY the chaos-game value while bitlen(S)+length+1 <= 53. Correspondence: coordinates bit for bit with the binary64 model for every length, with the exact spec on the exactly representable prefix; file path with threads/limits/containers.",
+         "7 C11", "Rust f64 +,/ assumed IEEE binary64 RNE (Flocq); `{}` printing validated by parse-back only; beyond the exactly representable prefix only containment in the whole square is proved for the float walk (sub-square containment there is partial).",
          "Coq proof (induction over the walk, dyadic arithmetic by nia/lia) + bit-exact differential correspondence (Flocq)"),
  "C12": ("proof", "Theorems: one triple per canonical column; (x,y) of column j is the CGR end point of that k-mer's text and does not depend on the record; f equals the oligo entry (C04 transfer). Correspondence bit for bit at record and file level, and f cross-checked against the oligo vector on the implementation.",
          "7 C12", "as C04 and C11.",
          "Coq proof (C04/C11 transfer) + bit-exact differential correspondence"),
- "C06": ("proof", "Theorems: FASTA and FASTQ round trips of the line-parser model for ALL well-formed record lists printed with any whitespace line terminators, any line wrapping, optional descriptions, records without bases (FASTA), quality lines starting with @ or +; stream -> lines lemma; all gzip members are read; numbering 0,1,2,...; suffix table regenerated from SeqFormat::get and proved equal to the documented suffixes. Correspondence: the real reader and statistics pass on generated files (plain / gzip with 1..6 members, stored and deflated) against the parser model AND the generating list.",
+ "C06": ("proof", "Theorems: FASTA and FASTQ round trips of the line-parser model for ALL well-formed record lists printed with any whitespace line terminators, any line wrapping, optional descriptions, records without bases (FASTA), quality lines starting with @ or +; stream -> lines lemma; end-to-end theorem on the executable reader (suffix, any cut into gzip members, lines, parser, numbering, statistics); all gzip members are read; numbering 0,1,2,...; suffix table regenerated from SeqFormat::get and proved equal to the documented suffixes. Correspondence: the real reader and statistics pass on generated files (plain / gzip with 1..6 members, stored and deflated) against the parser model AND the generating list.",
          "7 C06", "bio 2.0.3's parsers are third-party code modelled from their source; the DEFLATE codec is not modelled (member structure only); non-UTF-8 input is outside 'well-formed'.",
          "Coq proof (induction over the printed record list) + differential correspondence against model and generating list"),
  "C13": ("proof", "Theorems: every byte of the UTF-8 encoding of a non-ASCII code point is >= 128, such bytes are ambiguous for all three iterators and have no CGR corner (table facts), batch = map. The binding is checked against the SAME extracted models as the core (py: case lines dispatch to the core ops on the UTF-8 bytes): tuples, vectors as bit patterns, headers, ValueError, batch order, iterators used after the source string was released.",
          "7 C13", "memory safety of the transmuted lifetime and 'never crashes the interpreter' are runtime behaviour a Gallina model cannot exhibit (exercised: interpreter death is reported): partial.",
          "Coq proof (UTF-8 lemma, table facts) + differential correspondence of the built extension against the core models"),
- "C14": ("proof", "Theorems: every index used unchecked is in bounds - canonical code < 4^k = |pos_map|, column < column count = |vec|, coverage bin < bin-count (bin-count >= 1), partition < n_parts; mapped layout for ANY delimiter length: rows inside the mapping, tiling exactly, never overlapping; numbers are 8 characters wide for frequencies. Tied to the code by the hook log: every logged (index, len) and (pos, len, cap) must be in bounds, the writes must tile the file, and their counts must equal the model's.",
-         "7 C14", "only hooked sites are observed; the effect of an out-of-bounds write is not modelled (we show there is none); 'frequency times 10^6 rounds to at most 10^6' rests on the validated Flocq model.",
+ "C14": ("proof", "Theorems: every index used unchecked is in bounds - canonical code < 4^k = |pos_map|, column < column count = |vec|, coverage bin < bin-count (bin-count >= 1), partition < n_parts; mapped layout for ANY delimiter length: rows inside the mapping, tiling exactly, never overlapping; numbers are 8 characters wide for frequencies and every normalised row has exactly the reserved length (Flocq); the inventory of unsafe constructs regenerated from the sources equals the hooked/modelled sites. Tied to the code by the hook log: every logged (index, len) and (pos, len, cap) must be in bounds, the writes must tile the file, and their counts must equal the model's.",
+         "7 C14", "only hooked sites are observed; the effect of an out-of-bounds write is not modelled (we show there is none); only hooked/inventoried sites are covered.",
          "Coq proof (index and layout arithmetic) + runtime log checked against the model (cfg(kmertools_verif) hooks, debug build)"),
  "C15": ("proof", "Thin theorems over the cli() model: clap ranges/defaults, preset arms and refusals regenerated from args.rs and proved equal to the documented ones; presets only pick the delimiter, -H / --counts / -t as documented (for every accepted k, preset, flag and thread value, arbitrary writer); out-of-range values and windows not longer than the minimiser are refused. The weight is on the tie: the binary over the option matrix against model (regenerated data) and spec (documented data), thread-count and CLI-vs-library agreement on the implementation.",
          "7 C15", "argv construction and output canonicalisation are harness code (trusted).",
